@@ -24,7 +24,7 @@ LEVEL = "exploration"
 tiers = {
     "quick": {"runs": 20000, "chunk": 400, "wall_cap_s": 2400, "determinism_samples": 8,
               "max_minimise": 4, "minimise_budget_s": 30, "cpp_every": 0},
-    "thorough": {"runs": 600000, "chunk": 2000, "wall_cap_s": 3300, "determinism_samples": 40,
+    "thorough": {"runs": 600000, "chunk": 2000, "wall_cap_s": 7200, "determinism_samples": 40,
                  "max_minimise": 6, "minimise_budget_s": 90, "cpp_every": 300},
 }
 
